@@ -482,6 +482,7 @@ func runC16(c *Check) {
 	c.ruleRouterPairing(fRequests, fResp)
 	c.ruleIndexBoundOnSameIndex("R7", "client.(*RemoteClient).GetOutputs")
 	c.ruleSpliceRemovesOne("R11", 10, "client")
+	c.ruleHeadersRoutedByRequestHeight("R12")
 	c.ruleRemoveByIdentity("R6", fRequests, c.P.Field("client", "RemoteClient", "removeRequestsChannel"))
 
 	// ---- R6 ownership of the pending list
